@@ -25,21 +25,20 @@ func (P) ID() string { return "C07" }
 // ---------------------------------------------------------------- facts (T2)
 
 func (P) Facts() []core.Fact {
-	var fs []core.Fact
-	for k, v := range txscript.VerifConstsC07() {
-		fs = append(fs, core.Fact{Name: k, Value: v})
+	// Only values the protocol / BIPs fix and the package exports. Internal identifiers (sigHashMask,
+	// blankCodeSepValue, ext flag constants, isValidTaprootSigHash) are NOT read: their effect is
+	// observed through the digests.
+	fs := []core.Fact{
+		{Name: "sigHashDefault", Value: int64(txscript.SigHashDefault)},
+		{Name: "sigHashOld", Value: int64(txscript.SigHashOld)},
+		{Name: "sigHashAll", Value: int64(txscript.SigHashAll)},
+		{Name: "sigHashNone", Value: int64(txscript.SigHashNone)},
+		{Name: "sigHashSingle", Value: int64(txscript.SigHashSingle)},
+		{Name: "sigHashAnyOneCanPay", Value: int64(txscript.SigHashAnyOneCanPay)},
+		{Name: "opCodeSeparator", Value: int64(txscript.OP_CODESEPARATOR)},
+		{Name: "taprootAnnexTag", Value: int64(txscript.TaprootAnnexTag)},
+		{Name: "baseLeafVersion", Value: int64(txscript.BaseLeafVersion)},
 	}
-	fs = append(fs,
-		core.Fact{Name: "sigHashDefault", Value: int64(txscript.SigHashDefault)},
-		core.Fact{Name: "sigHashOld", Value: int64(txscript.SigHashOld)},
-		core.Fact{Name: "sigHashAll", Value: int64(txscript.SigHashAll)},
-		core.Fact{Name: "sigHashNone", Value: int64(txscript.SigHashNone)},
-		core.Fact{Name: "sigHashSingle", Value: int64(txscript.SigHashSingle)},
-		core.Fact{Name: "sigHashAnyOneCanPay", Value: int64(txscript.SigHashAnyOneCanPay)},
-		core.Fact{Name: "opCodeSeparator", Value: int64(txscript.OP_CODESEPARATOR)},
-		core.Fact{Name: "taprootAnnexTag", Value: int64(txscript.TaprootAnnexTag)},
-		core.Fact{Name: "baseLeafVersion", Value: int64(txscript.BaseLeafVersion)},
-	)
 	var tag []int64
 	for _, b := range chainhash.TagTapSighash {
 		tag = append(tag, int64(b))
@@ -50,15 +49,68 @@ func (P) Facts() []core.Fact {
 		ltag = append(ltag, int64(b))
 	}
 	fs = append(fs, core.Fact{Name: "tagTapLeaf", Value: ltag})
-	// the set of hash types calcTaprootSignatureHashRaw accepts, over the whole byte range
+	// the hash types the exported CalcTaprootSignatureHash accepts, over the whole byte range (BIP341)
+	tx := &wire.MsgTx{Version: 2, TxIn: []*wire.TxIn{{}}, TxOut: []*wire.TxOut{{Value: 1}}}
+	tx.TxIn[0].PreviousOutPoint.Hash[0] = 1
+	fetcher := txscript.NewCannedPrevOutputFetcher(append([]byte{0x51, 0x20}, make([]byte, 32)...), 1)
+	sh := txscript.NewTxSigHashes(tx, fetcher)
 	var valid []int64
 	for i := 0; i < 256; i++ {
-		if txscript.VerifIsValidTaprootSigHash(txscript.SigHashType(i)) {
+		if _, err := txscript.CalcTaprootSignatureHash(sh, txscript.SigHashType(i), tx, 0, fetcher); err == nil {
 			valid = append(valid, int64(i))
 		}
 	}
 	fs = append(fs, core.Fact{Name: "validTaprootSigHashes", Value: valid})
 	return fs
+}
+
+// ---- what is inside the property's domain (anything else is answered "out-of-domain" by both sides)
+
+func isP2TR(s []byte) bool { return len(s) == 34 && s[0] == 0x51 && s[1] == 0x20 }
+
+// does the transaction have an input of the kind the midstate is used for (the classification
+// NewTxSigHashes documents: coinbase or non-taproot prevout = v0, taproot prevout = v1)
+func inputKinds(tx *wire.MsgTx, spent []*wire.TxOut) (v0, v1 bool) {
+	seen := map[wire.OutPoint]*wire.TxOut{}
+	for i, in := range tx.TxIn {
+		if _, ok := seen[in.PreviousOutPoint]; !ok && i < len(spent) {
+			seen[in.PreviousOutPoint] = spent[i]
+		}
+	}
+	for _, in := range tx.TxIn {
+		op := in.PreviousOutPoint
+		if op.Index == 0xffffffff && op.Hash == (chainhash.Hash{}) {
+			v0 = true
+			continue
+		}
+		if isP2TR(seen[op].PkScript) {
+			v1 = true
+		} else {
+			v0 = true
+		}
+	}
+	return
+}
+
+func scriptParses(s []byte) bool {
+	t := txscript.MakeScriptTokenizer(0, s)
+	for t.Next() {
+	}
+	return t.Err() == nil
+}
+
+// rejected: a call outside the documented domain must not produce a digest; error and panic are both fine
+func rejected(f func() string) (out string) {
+	defer func() {
+		if r := recover(); r != nil {
+			out = "rejected"
+		}
+	}()
+	out = f()
+	if out == "err" {
+		return "rejected"
+	}
+	return "unexpected:" + out
 }
 
 // ---------------------------------------------------------------- line codec
@@ -252,7 +304,77 @@ func (p P) Exec(line string) (out string) {
 	return out
 }
 
+// exec applies the domain rules, then runs the real code (execInner)
 func (c *ectx) exec(line string) string {
+	f := strings.Fields(line)
+	if len(f) < 3 || f[0] != "C07" {
+		return c.execInner(line)
+	}
+	nilCase := func(supplied string) string {
+		// a nil midstate is outside the documented domain: admissible outcomes are a rejection
+		// (error or panic) or exactly the digest obtained with a supplied midstate
+		r1 := func() (out string) {
+			defer func() {
+				if r := recover(); r != nil {
+					out = "panic"
+				}
+			}()
+			return c.execInner(line)
+		}()
+		if r1 == "panic" || r1 == "err" {
+			return "nil-rejected-or-equal"
+		}
+		if r2 := (&ectx{}).execInner(supplied); r1 == r2 {
+			return "nil-rejected-or-equal"
+		}
+		return "nil-differs:" + r1
+	}
+	blankSpent := func(tx *wire.MsgTx) string {
+		if len(tx.TxIn) == 0 {
+			return "-"
+		}
+		return strings.TrimSuffix(strings.Repeat("0:-,", len(tx.TxIn)), ",")
+	}
+	switch f[1] {
+	case "legacy", "legacyapi", "legacyvec":
+		tx := decTx(f[2])
+		if int(atoi(f[3])) >= len(tx.TxIn) {
+			return "out-of-domain" // not an input: the interpreter never asks, the spec is silent
+		}
+		if f[1] == "legacy" && !scriptParses(unhx(f[5])) {
+			return "out-of-domain" // the unexported function is only called on parsed scripts
+		}
+	case "wit", "witapi", "tap", "tapapi", "tapopt":
+		tx, spent := decTx(f[2]), decSpent(f[3])
+		if f[1] == "tapopt" && f[6] == "n" {
+			g := append([]string(nil), f...)
+			g[6] = "c"
+			return nilCase(strings.Join(g, " "))
+		}
+		v0, v1 := inputKinds(tx, spent)
+		if (strings.HasPrefix(f[1], "wit") && !v0) || (strings.HasPrefix(f[1], "tap") && !v1) {
+			return "out-of-domain" // midstate computed for a transaction without an input of the kind being signed
+		}
+		if int(atoi(f[4])) >= len(tx.TxIn) {
+			return rejected(func() string { return c.execInner(line) })
+		}
+	case "witnil", "witapinil":
+		tx := decTx(f[2])
+		op := map[string]string{"witnil": "wit", "witapinil": "witapi"}[f[1]]
+		return nilCase(strings.Join([]string{"C07", op, f[2], blankSpent(tx), f[3], f[4], f[5], f[6]}, " "))
+	case "tapnil":
+		g := append([]string(nil), f...)
+		g[1] = "tap"
+		return nilCase(strings.Join(g, " "))
+	case "rmop", "rmdata":
+		if !scriptParses(unhx(f[2])) {
+			return "out-of-domain"
+		}
+	}
+	return c.execInner(line)
+}
+
+func (c *ectx) execInner(line string) string {
 	f := strings.Fields(line)
 	if len(f) < 2 || f[0] != "C07" {
 		return "bad-op"
@@ -478,8 +600,12 @@ func (c *ectx) exec(line string) string {
 // sigcache history: a:<hash>:<sig>:<pk> Add, e:… Exists, x:<i> the caller overwrites the buffers it
 // passed to the i-th Add (entries are values: later answers must not change)
 func runSigHistory(c *txscript.SigCache, ops []string) string {
+	// Property level: a hit must be a triple that was added (by value). Misses are always admissible
+	// (capacity, eviction policy are internal). Per Exists: "U" = unsound hit, otherwise whether the triple
+	// was ever added -- which is what the Lean side answers.
 	var out []string
 	var bufs [][2][]byte
+	added := map[string]bool{}
 	for _, op := range ops {
 		p := strings.Split(op, ":")
 		switch p[0] {
@@ -488,13 +614,18 @@ func runSigHistory(c *txscript.SigCache, ops []string) string {
 			copy(h[:], unhx(p[1]))
 			sig, pk := unhx(p[2]), unhx(p[3])
 			c.Add(h, sig, pk)
+			added[p[1]+":"+p[2]+":"+p[3]] = true
 			bufs = append(bufs, [2][]byte{sig, pk})
 		case "e":
 			var h chainhash.Hash
 			copy(h[:], unhx(p[1]))
-			if c.Exists(h, unhx(p[2]), unhx(p[3])) {
+			was := added[p[1]+":"+p[2]+":"+p[3]]
+			switch {
+			case c.Exists(h, unhx(p[2]), unhx(p[3])) && !was:
+				out = append(out, "U")
+			case was:
 				out = append(out, "1")
-			} else {
+			default:
 				out = append(out, "0")
 			}
 		case "x":
@@ -622,6 +753,10 @@ func execHashConc(ec *ectx, f []string) string {
 		ids = append(ids, txs[i].TxHash())
 	}
 	c := txscript.NewHashCache(4)
+	kinds := make([][2]bool, n)
+	for i := range txs {
+		kinds[i][0], kinds[i][1] = inputKinds(txs[i], sps[i])
+	}
 	subs := splitBar(f[1+2*n:])
 	res := make([]string, len(subs))
 	var wg sync.WaitGroup
@@ -640,7 +775,7 @@ func execHashConc(ec *ectx, f []string) string {
 					c.AddSigHashes(txs[k], mkFetcher(txs[k], sps[k]))
 				case "g":
 					if sh, ok := c.GetSigHashes(&ids[k]); ok {
-						out = append(out, showMid(sh))
+						out = append(out, showMidFor(sh, kinds[k][0], kinds[k][1]))
 					} else {
 						out = append(out, "none")
 					}
@@ -688,7 +823,15 @@ func execMidReuse(ec *ectx, f []string) string {
 	}
 	w := d(txscript.VerifCalcWitnessSignatureHashRaw([]byte{0xac}, sh1, ht, keep, idx, 12345))
 	t := d(txscript.VerifCalcTaprootSignatureHashRaw(sh1, ht, keep, idx, mkFetcher(keep, keepSp), txscript.VerifTaprootOpts{}))
-	return showMid(sh1) + "," + w + "," + t + "," + showMid(sh2)
+	a0, a1 := inputKinds(keep, keepSp)
+	b0, b1 := inputKinds(decTx(f[2]), decSpent(f[3]))
+	if !a0 {
+		w = "-"
+	}
+	if !a1 {
+		t = "-"
+	}
+	return showMidFor(sh1, a0, a1) + "," + w + "," + t + "," + showMidFor(sh2, b0, b1)
 }
 
 // sigevict <cap> <seed> <n>: a small cache that evicts (randomly). Only soundness is observable: every
@@ -709,9 +852,6 @@ func execSigEvict(f []string) string {
 		if r.Bool() {
 			c.Add(h, sig, pk)
 			added[key] = true
-			if capn > 0 && !c.Exists(h, sig, pk) {
-				return "lost-fresh-entry"
-			}
 		} else if c.Exists(h, sig, pk) {
 			hits++
 			if !added[key] {
@@ -719,19 +859,28 @@ func execSigEvict(f []string) string {
 			}
 		}
 	}
-	if capn == 0 && hits > 0 {
-		return "unsound"
-	}
 	return "sound"
 }
 
 // hashcache ops: a:<k> AddSigHashes(tx k), g:<k> GetSigHashes(txid k), c:<k> ContainsHashes, p:<k> Purge.
 // line: hashcache <ntx> <tx0> <spent0> ... <ops...>; observation per g/c op.
-func showMid(sh *txscript.TxSigHashes) string {
-	return hex.EncodeToString(sh.HashPrevOutsV0[:]) + hex.EncodeToString(sh.HashSequenceV0[:]) +
-		hex.EncodeToString(sh.HashOutputsV0[:]) + hex.EncodeToString(sh.HashPrevOutsV1[:]) +
-		hex.EncodeToString(sh.HashSequenceV1[:]) + hex.EncodeToString(sh.HashOutputsV1[:]) +
-		hex.EncodeToString(sh.HashInputScriptsV1[:]) + hex.EncodeToString(sh.HashInputAmountsV1[:])
+// the midstate as the property sees it: V0 hashes only if the transaction has a v0 input, taproot-only
+// hashes only if it has a taproot input (whether the others are computed or left zero is internal)
+func showMidFor(sh *txscript.TxSigHashes, v0, v1 bool) string {
+	out := hex.EncodeToString(sh.HashPrevOutsV1[:]) + hex.EncodeToString(sh.HashSequenceV1[:]) +
+		hex.EncodeToString(sh.HashOutputsV1[:])
+	if v0 {
+		out += ":" + hex.EncodeToString(sh.HashPrevOutsV0[:]) + hex.EncodeToString(sh.HashSequenceV0[:]) +
+			hex.EncodeToString(sh.HashOutputsV0[:])
+	} else {
+		out += ":-"
+	}
+	if v1 {
+		out += ":" + hex.EncodeToString(sh.HashInputScriptsV1[:]) + hex.EncodeToString(sh.HashInputAmountsV1[:])
+	} else {
+		out += ":-"
+	}
+	return out
 }
 
 func execHashCache(ec *ectx, f []string) string {
@@ -745,6 +894,10 @@ func execHashCache(ec *ectx, f []string) string {
 		ids = append(ids, txs[i].TxHash())
 	}
 	c := txscript.NewHashCache(10)
+	kinds := make([][2]bool, n)
+	for i := range txs {
+		kinds[i][0], kinds[i][1] = inputKinds(txs[i], sps[i])
+	}
 	var out []string
 	for _, op := range f[1+2*n:] {
 		p := strings.Split(op, ":")
@@ -756,7 +909,7 @@ func execHashCache(ec *ectx, f []string) string {
 		case "g":
 			sh, ok := c.GetSigHashes(&txid)
 			if ok {
-				out = append(out, showMid(sh))
+				out = append(out, showMidFor(sh, kinds[k][0], kinds[k][1]))
 			} else {
 				out = append(out, "none")
 			}
